@@ -60,7 +60,9 @@ package lexer
 //@   requires len(s) > 0
 //@   ensures[plain] s[0] < 128 && s[0] != 92 ==> err == nil && value == int32(s[0]) && !multibyte
 //@   loop 0 invariant[bounds] j >= 0 && n >= 0 && n <= len(s)
-//@   loop 1 invariant[bounds] j >= 0 && len(s) >= 2
+//@   loop 1 invariant[bounds] j >= 0 && j <= 2 && len(s) >= 2
+//@   loop 1 invariant[octal-value] (j == 0 ==> v == int32(s[1]) - 48) && (j == 1 ==> v == (int32(s[1]) - 48) * 8 + int32(s[2]) - 48) && (j == 2 ==> v == ((int32(s[1]) - 48) * 8 + int32(s[2]) - 48) * 8 + int32(s[3]) - 48)
+//@   ensures[octal] err == nil && len(s) >= 4 && s[0] == 92 && s[1] >= 48 && s[1] <= 51 ==> value == ((int32(s[1]) - 48) * 8 + int32(s[2]) - 48) * 8 + int32(s[3]) - 48
 
 // acceptWord is a lookahead: when the word does not follow, the lexer is exactly where it was (C12, C13)
 //@ func lexer.lexer.acceptWord returns ok
